@@ -40,12 +40,22 @@ class _Api:
 
 
 def _snapshot(obj):
-    return dict(vars(obj))
+    """instance attributes, plus the values of the class's properties (a field may have become a computed property)"""
+    d = dict(vars(obj))
+    for name in dir(type(obj)):
+        if name.startswith("__") or name in d:
+            continue
+        if isinstance(getattr(type(obj), name, None), property):
+            try:
+                d[name] = getattr(obj, name)
+            except Exception:
+                pass
+    return d
 
 
 def _changed(before, obj, pred):
     out = []
-    for k, v in vars(obj).items():
+    for k, v in _snapshot(obj).items():
         if pred(before.get(k, _MISSING), v):
             out.append(k)
     return out
